@@ -189,6 +189,25 @@ class Checker:
                 return 1
             for fn, _ in errors:
                 del vcs[fn]
+        # package-level invariants are sound only if nothing but the package initialisers stores to those variables
+        self.global_writes = []
+        if any(vc is not None and getattr(vc, 'assume_globalinvs', False) for vc in vcs.values()):
+            pk = set(p_ for p_, _ in cs.globalinvs)
+            for fname, f in prog.funcs.items():
+                if fname.endswith('.init'):
+                    continue
+                for b in f.blocks:
+                    for i in b['instrs']:
+                        if i['op'] == 'Store' and i['addr'].get('k') == 'global' and i['addr']['n'].rsplit('.', 1)[0] in pk:
+                            self.global_writes.append('%s stores to %s' % (short_fn(prog, fname), i['addr']['n'].rsplit('/', 1)[-1]))
+            for w in self.global_writes:
+                print('GLOBAL-WRITTEN: %s (a package-level invariant is assumed for it)' % w)
+                os.makedirs(os.path.join(VERIF, 'replays'), exist_ok=True)
+                gp = os.path.join(VERIF, 'replays', '%s-global-written.json' % pid)
+                with open(gp, 'w') as f_:
+                    json.dump({'property': pid, 'obligation': 'package-level variables are written only by their initialiser', 'writes': self.global_writes,
+                               'failing_input_found': False}, f_, indent=1)
+                print('VIOLATION property=%s replay=%s obligation="package-level variables are written only by their initialiser" no-failing-input-found' % (pid, gp))
         # discharge
         items = []
         self.deferred = []
@@ -374,7 +393,7 @@ class Checker:
         n_claimed = len(results) - len(kf_hits)
         print('%s: %d functions under contract, %d obligations, %d discharged, %d known findings, %d violations, %.1fs'
               % (pid, len(vcs), n_claimed, len(discharged), len(kf_hits), len(violations), time.time() - self.t0))
-        if violations or vac or getattr(self, 'extra_violations', 0):
+        if violations or vac or getattr(self, 'extra_violations', 0) or self.global_writes:
             return 1
         return 0
 
